@@ -84,7 +84,19 @@ class Session:
                 short = name.split(".")[-1]
                 return name in names or short in names or (kind == "property" and ("@property" in names))
             inline = pol
-        b = Builder(self.prog, inline=inline, **kw)
+        base_pol = inline or (lambda kind, name, cls: False)
+        known = known_names()
+
+        def with_new_helpers(kind, name, cls, base_pol=base_pol):
+            """inline what the rule asks for, plus any lerax function/method that did not exist in the pinned tree (a helper
+            introduced by a later change is looked through, not treated as an uninterpreted call)"""
+            if base_pol(kind, name, cls):
+                return True
+            if not known or kind not in ("method", "function", "property"):
+                return False
+            q = name if kind != "property" else (f"{cls.qualname}.{name}" if cls is not None else name)
+            return q.startswith(self.prog.package + ".") and q not in known
+        b = Builder(self.prog, inline=with_new_helpers, **kw)
         self.builders.append(b)
         return b
 
@@ -195,6 +207,21 @@ def diff_terms(a, b):
             and isinstance(a[1], str) and isinstance(b[1], str)):
         return ("k", "callee " + a[1]), ("k", "callee " + b[1])
     return a, b
+
+
+_KNOWN_NAMES = None
+
+
+def known_names() -> frozenset:
+    global _KNOWN_NAMES
+    if _KNOWN_NAMES is None:
+        p = os.path.join(os.path.dirname(os.path.abspath(__file__)), "known_names.txt")
+        try:
+            with open(p) as f:
+                _KNOWN_NAMES = frozenset(ln.strip() for ln in f if ln.strip())
+        except OSError:
+            _KNOWN_NAMES = frozenset()
+    return _KNOWN_NAMES
 
 
 # ----------------------------------------------------------------------------- known findings
